@@ -38,6 +38,8 @@ func FixtureGroups(unrestrictedTokens bool, maxClients int) map[string]string {
 			"rawop":    map[string]any{"password": "p", "permissions": []string{"op"}},
 			"rawtoken": map[string]any{"password": "p", "permissions": []string{"token", "message"}},
 			"rawrec":   map[string]any{"password": "p", "permissions": []string{"record"}},
+			// an explicit list that names permissions twice
+			"dupes": map[string]any{"password": "p", "permissions": []string{"present", "message", "present", "message"}},
 		},
 	}
 	if maxClients > 0 {
@@ -47,7 +49,7 @@ func FixtureGroups(unrestrictedTokens bool, maxClients int) map[string]string {
 		g["auto-subgroups"] = true
 	}
 	gj, _ := json.Marshal(g)
-	h := `{"users":{"alice":{"password":"pa","permissions":"op"},"oper":{"password":"p","permissions":"op"},"speaker":{"password":"p","permissions":"present"}}}`
+	h := `{"users":{"alice":{"password":"pa","permissions":"op"},"oper":{"password":"p","permissions":"op"},"speaker":{"password":"p","permissions":"present"},"dupes":{"password":"p","permissions":["present","message","present","message"]}}}`
 	return map[string]string{"g": string(gj), "h": h}
 }
 
